@@ -4,10 +4,20 @@ to judge acceptance.  Written from the layout in the property texts."""
 
 
 def walk(binary):
-    """Return (regions, info): regions is a sorted list of (start, end, name)."""
+    """Return (regions, info): regions is a sorted list of (start, end, name).
+    Tolerates damaged input: the walk simply stops where the bytes end."""
     regions = []
-    pos = 0
     info = {"kind": None, "blocks": [], "entries": [], "payloads": []}
+    try:
+        _walk(binary, regions, info)
+    except IndexError:
+        pass
+    regions.sort()
+    return regions, info
+
+
+def _walk(binary, regions, info):
+    pos = 0
     if binary[:5] == b"BF3\0\0":
         info["kind"] = "bf3"
         regions.append((0, 5, "sig"))
@@ -28,7 +38,7 @@ def walk(binary):
             info["blocks"].append((tag, pos + 2, ln))
             pos += 2 + ln
     else:
-        return regions, info
+        return
     info["dir_start"] = pos
     regions.append((pos, pos + 4, "dir-size"))
     dsize = int.from_bytes(binary[pos:pos + 4], "big")
@@ -64,8 +74,6 @@ def walk(binary):
         last = k == len(info["entries"]) - 1
         regions.append((e["adr"], e["adr"] + e["total"], "payload-last" if last else "payload"))
         info["payloads"].append((e["adr"], e["total"]))
-    regions.sort()
-    return regions, info
 
 
 def region_of(regions, pos):
